@@ -86,6 +86,10 @@ type Options struct {
 	// Inject is called before each statement of a function body with (unit index,
 	// statement ordinal in that body); it may issue extra builder operations (faults).
 	Inject func(c *Compiler, unit, stmt int, depth int)
+	// CompleteEarly closes the grouped type declarations opened so far right after the
+	// eager phase, while lazily loaded members are still without a type (gogen then drops
+	// those specs from the block; InitType arrives later from LoadNamed).
+	CompleteEarly bool
 	// AfterBody is called after each function body has been compiled.
 	AfterBody func(c *Compiler)
 	// InjectExpr is called after an operand of a call has been pushed.
@@ -291,6 +295,11 @@ func (c *Compiler) Run() (err error) {
 		c.ensure(s)
 		if c.opts.BodiesEarly && (s.Kind == symFunc || s.Kind == symMethod) {
 			c.body(i)
+		}
+	}
+	if c.opts.CompleteEarly {
+		for _, defs := range c.groupOrder {
+			defs.Complete()
 		}
 	}
 	// bodies, in the scheduled order; they pull in everything else on demand
